@@ -57,3 +57,73 @@ func VerifC06CompiledRetryDomain() {
 	vrt.Assert("C06.link.accepted-jitter-is-never-outside-0-1", !(r.Jitter < 0) && !(r.Jitter > 1))
 	vrt.Assert("C06.link.type-is-exponential", r.Type == "exponential")
 }
+
+// verif:harness props=C06 tier=quick native=yes weight=25
+// verif:bounds a fan-out route with two deliver targets (and a second route after it), each target with its own retry directive or none, optionally a retry directive in the defaults block; each directive from {none, `max 4`, `base 2s cap 2m`, `max 7 base 3s jitter 0.5`}; real Parse -> Compile: every target's retry settings are its own directive's, completed field by field from the defaults block (or the built-in defaults) — never from a neighbouring target or route
+func VerifC06RetryIsPerTarget() {
+	type rt struct {
+		has                     bool
+		max, base, cap, jitter string
+	}
+	menu := []rt{{}, {true, "4", "", "", ""}, {true, "", "2s", "2m", ""}, {true, "7", "3s", "", "0.5"}}
+	draw := func(tag string) rt { return menu[vrt.Choose(tag+"-retry-directive", len(menu))] }
+	text := func(r rt) string {
+		if !r.has {
+			return ""
+		}
+		s := "    retry exponential"
+		if r.max != "" {
+			s += " max " + r.max
+		}
+		if r.base != "" {
+			s += " base " + r.base
+		}
+		if r.cap != "" {
+			s += " cap " + r.cap
+		}
+		if r.jitter != "" {
+			s += " jitter " + r.jitter
+		}
+		return s + "\n"
+	}
+	defs, t1, t2, t3 := draw("defaults"), draw("first-target"), draw("second-target"), draw("other-route")
+	src := ""
+	if defs.has {
+		src += "defaults {\n  deliver {\n" + text(defs) + "  }\n}\n"
+	}
+	src += "/a {\n  deliver \"https://t1.example/h\" {\n" + text(t1) + "  }\n  deliver \"https://t2.example/h\" {\n" + text(t2) + "  }\n}\n"
+	src += "/b {\n  deliver \"https://t3.example/h\" {\n" + text(t3) + "  }\n}\n"
+	cfg, err := Parse([]byte(src))
+	vrt.Assert("C06.pertarget.parses", err == nil)
+	if err != nil {
+		return
+	}
+	compiled, res := Compile(cfg)
+	vrt.Assert("C06.pertarget.compiles", res.OK && len(compiled.Routes) == 2 && len(compiled.Routes[0].Deliveries) == 2 && len(compiled.Routes[1].Deliveries) == 1)
+	if !res.OK || len(compiled.Routes) != 2 || len(compiled.Routes[0].Deliveries) != 2 || len(compiled.Routes[1].Deliveries) != 1 {
+		return
+	}
+	// the reference: the same text with ONLY this target (so no neighbour exists to inherit from)
+	alone := func(r rt) RetryConfig {
+		s := ""
+		if defs.has {
+			s += "defaults {\n  deliver {\n" + text(defs) + "  }\n}\n"
+		}
+		s += "/z {\n  deliver \"https://z.example/h\" {\n" + text(r) + "  }\n}\n"
+		c, e := Parse([]byte(s))
+		if e != nil {
+			return RetryConfig{}
+		}
+		k, rr := Compile(c)
+		if !rr.OK || len(k.Routes) != 1 || len(k.Routes[0].Deliveries) != 1 {
+			return RetryConfig{}
+		}
+		return k.Routes[0].Deliveries[0].Retry
+	}
+	same := func(a, b RetryConfig) bool {
+		return a.Type == b.Type && a.Max == b.Max && a.Base == b.Base && a.Cap == b.Cap && a.Jitter == b.Jitter
+	}
+	vrt.Assert("C06.pertarget.first-target-has-its-own-settings", same(compiled.Routes[0].Deliveries[0].Retry, alone(t1)))
+	vrt.Assert("C06.pertarget.second-target-does-not-inherit-from-the-first", same(compiled.Routes[0].Deliveries[1].Retry, alone(t2)))
+	vrt.Assert("C06.pertarget.other-route-does-not-inherit-from-this-one", same(compiled.Routes[1].Deliveries[0].Retry, alone(t3)))
+}
